@@ -168,6 +168,36 @@ End Plan.
 Definition rebase_todo (has : revid -> bool) (m : rmap) : list revid :=
   flat_map (fun e => if has (fst (snd e)) then [] else [fst e]) m.
 
+(* ---- rebase(): the replay order (since 7ede022) ---------------------------------
+
+   new_to_old = {newrevid: oldrevid for oldrevid, (newrevid, _) in replace_map.items()}
+   (a dict comprehension: for equal new ids the LAST entry wins) *)
+Fixpoint new_to_old (m : rmap) (p : revid) : option revid :=
+  match m with
+  | [] => None
+  | e :: m' => match new_to_old m' p with
+               | Some o => Some o
+               | None => if p =? fst (snd e) then Some (fst e) else None
+               end
+  end.
+
+(* dependencies[oldrevid] = tuple(oldparents) + tuple(new_to_old[p] for p in newparents if p in new_to_old)
+   (a key of a plan is a present revision; a root's (null:,) is no key) *)
+Definition plan_deps (g : dag) (m : rmap) (old : revid) : list revid :=
+  match rm_get m old with
+  | Some (_, ps) =>
+      parents g old ++ flat_map (fun p => match new_to_old m p with Some o => [o] | None => [] end) ps
+  | None => []
+  end.
+
+(* todo = topo_sort(dependencies) (compiled, vcsgraph): SOME list without
+   duplicates in which no key is followed by one of its dependencies *)
+Fixpoint dep_sortedb (dep : revid -> list revid) (l : list revid) : bool :=
+  match l with
+  | [] => true
+  | r :: l' => negb (memb r l') && forallb (fun d => negb (memb d l')) (dep r) && dep_sortedb dep l'
+  end.
+
 (* ---- correspondence entry points ---------------------------------------- *)
 
 Definition NEW := 100.                       (* canonical new id of old revision r: NEW + r *)
